@@ -199,6 +199,20 @@ func (p *Prog) callersOf(fn *ssa.Function) []*callgraph.Edge {
 		if e.Caller.Func == nil || p.isTestFn(e.Caller.Func) {
 			continue
 		}
+		// method-set wrappers (promoted methods of embedding types) that nobody calls are not callers
+		if cf := e.Caller.Func; cf.Synthetic != "" && cf.Parent() == nil {
+			if cn := p.CG().Nodes[cf]; cn != nil {
+				live := false
+				for _, in2 := range cn.In {
+					if in2.Caller.Func != nil && !p.isTestFn(in2.Caller.Func) {
+						live = true
+					}
+				}
+				if !live {
+					continue
+				}
+			}
+		}
 		out = append(out, e)
 	}
 	sort.Slice(out, func(i, j int) bool {
